@@ -7,7 +7,82 @@ T = "LospanVerif.Tie."
 def thms(mod, names):
     return {mod: [mod + "." + n for n in names]}
 
+PIPE_TIES = {**thms(T + "Processor", ["tie_uplinkLookup", "tie_uplinkHandler", "tie_joinVerify", "tie_joinHandler", "tie_encoder", "tie_joinRequestSize"]), **thms(T + "Server", ["tie_outputBufferLocked"])}
+
 PROPS = {
+    "C01": {
+        "theorems": thms(P + "C01", ["C01_matching_iff", "C01_wrong_type_dropped", "C01_unauthentic_dropped", "C01_processes_only_authentic", "C11_reject_is_noop", "C11_deliver_total"]),
+        "ties": PIPE_TIES,
+        "engines": ["pipeseq", "pipectl"],
+        "assumptions": ["a corrupted frame whose MIC still verifies (2^-32 collision) is authentic by the property's own definition; the Lean device decides authenticity of every corrupted frame"],
+        "trusted_base": ["pipeline handlers transcribed as thread programs in Model/Pipeline.lean"],
+    },
+    "C02": {
+        "theorems": thms(P + "C02", ["C02_decrypt_is_spec", "C02_mic_is_spec", "C14_involution", "C14_only_payload"]),
+        "ties": thms(T + "Protocol", ["tie_minimumMessageSize", "tie_mtypes", "tie_devAddrMasks"]),
+        "engines": ["uplink", "phyenc", "pipeseq"],
+        "assumptions": ["AES is a parameter of the theorems"],
+        "trusted_base": ["LoRaWAN 1.0 sections 4.3.3 and 4.4 transcribed as Spec/Lorawan.lean"],
+    },
+    "C03": {
+        "theorems": thms(P + "C03", ["C03_old_counter_rejected", "C03_accept_moves_counter", "C03_failed_write_stops", "updateState_sets"]),
+        "ties": PIPE_TIES,
+        "engines": ["pipeseq", "pipectl"],
+        "assumptions": ["sequential histories (one frame in flight); see known findings for concurrent delivery"],
+        "trusted_base": ["pipeline handlers transcribed as thread programs in Model/Pipeline.lean"],
+    },
+    "C04": {
+        "theorems": thms(P + "C04", ["C04_honoured_only_if_authentic", "C04_forged_no_effect", "C04_keys_are_spec", "C04_devnonce_wire", "C04_encodeJoinRequest_is_spec", "C04_accept_decodes"]),
+        "ties": PIPE_TIES,
+        "engines": ["pipeseq", "joinlib"],
+        "assumptions": ["AES is a parameter; D inverts E on 16-octet blocks (hypothesis of C04_accept_decodes)", "AppNonce randomness is an environment input read back from the emitted join-accept"],
+        "trusted_base": ["LoRaWAN 1.0 section 6.2 transcribed as Spec/Lorawan.lean (join part)"],
+    },
+    "C05": {
+        "theorems": thms(P + "C05", ["C05_reused_nonce_ignored", "addNonce_fresh", "addNonce_stores", "C05_second_insert_fails", "C05_failed_insert_stops"]),
+        "ties": PIPE_TIES,
+        "engines": ["pipeseq", "pipectl"],
+        "assumptions": ["AddDevNonce is one atomic INSERT with primary key (device, nonce)"],
+        "trusted_base": ["SQLite primary-key enforcement"],
+    },
+    "C06": {
+        "theorems": {**thms(P + "C06", ["C06_oldest_first", "C06_buffer_faithful", "C06_isolation"]), **thms(P + "C02", ["C02_decrypt_is_spec", "C02_mic_is_spec"])},
+        "ties": PIPE_TIES,
+        "engines": ["pipeseq", "phyenc"],
+        "assumptions": ["the server never queues MAC commands into the output buffer (AddMACCommand has no caller)"],
+        "trusted_base": ["EU868 maximum payload table transcribed in Model/Pipeline.lean (maxPayload)"],
+    },
+    "C07": {
+        "theorems": thms(P + "C07", ["C07_encodes_with_snapshot_counter", "C07_persists_before_handover", "C07_failed_write_no_frame", "C07_handover"]),
+        "ties": PIPE_TIES,
+        "engines": ["pipeseq", "pipectl"],
+        "assumptions": ["sequential histories; see known findings for an uplink handler racing the previous encoder"],
+        "trusted_base": ["pipeline handlers transcribed as thread programs in Model/Pipeline.lean"],
+    },
+    "C08": {
+        "theorems": thms(P + "C08", ["ackTime_inv", "resetAcks_inv", "setSent_inv", "addOutbox_inv", "C08_ack_only_sent_rows", "C08_requeue_exactly", "C08_only_unsent_transmitted"]),
+        "ties": PIPE_TIES,
+        "engines": ["pipeseq"],
+        "assumptions": ["wall-clock values abstracted to zero / non-zero"],
+        "trusted_base": ["the three SQL UPDATE statements of storage/messages.go transcribed row-wise (DB.ackTime, DB.resetAcks, DB.setSent)"],
+    },
+    "C09": {
+        "theorems": thms(P + "C09", ["C09_flag_set", "C09_ack_only_frame", "C09_flag_consumed", "C09_nothing_pending", "C09_no_entry"]),
+        "ties": PIPE_TIES,
+        "engines": ["pipeseq", "pipectl"],
+        "assumptions": ["RX-window timing is runtime behaviour; the scheduler delay is set to 0 in the harness"],
+        "trusted_base": ["frameoutputbuffer.go transcribed as fobTake / fobSet* in Model/Pipeline.lean"],
+    },
+    "C10": {
+        "theorems": {**thms(P + "C10", ["C10_crash_keeps_db", "C10_inbox_only_after_counter", "C10_keys_only_after_nonce"]),
+                     **thms(P + "C03", ["C03_failed_write_stops", "C03_accept_moves_counter"]),
+                     **thms(P + "C05", ["C05_second_insert_fails", "C05_failed_insert_stops"]),
+                     **thms(P + "C07", ["C07_persists_before_handover", "C07_failed_write_no_frame"])},
+        "ties": PIPE_TIES,
+        "engines": ["pipeseq", "pipectl"],
+        "assumptions": ["a crash is modelled as losing threads, output buffer and scheduler state while the database keeps every completed statement (SQLite durability trusted)"],
+        "trusted_base": ["order and error disposition of the handlers' storage calls: regenerated facts (Tie.Processor)"],
+    },
     "C11": {
         "theorems": {**thms(P + "C11", ["C11_phy_total", "C11_short_rejected"]), **thms(P + "C15", ["C15_unmarshal_total"])},
         "ties": thms(T + "Protocol", ["tie_minimumMessageSize", "tie_maxFOptsLen", "tie_maxPayloadSize", "tie_mtypes", "tie_isValidBufferOp", "tie_macUplinkTable", "tie_macDownlinkTable"]),
@@ -78,15 +153,65 @@ PROPS = {
         "trusted_base": ["order of critical sections recorded by the verif router hook right after Lock()"],
     },
     "C14": {
-        "theorems": thms(P + "C14", ["C14_eq_rfc4493", "C14_pure"]),
+        "theorems": {**thms(P + "C14", ["C14_eq_rfc4493", "C14_pure"]), **thms(P + "C02", ["C14_involution", "C14_only_payload"])},
         "ties": thms(T + "Cmac", ["tie_constBSize", "tie_constZero", "tie_constRb"]),
-        "engines": ["cmac"],
+        "engines": ["cmac", "uplink"],
         "assumptions": ["AES-128 (crypto/aes) is a parameter of the theorems; the driver's Lean AES is tested, not verified"],
         "trusted_base": ["RFC 4493 transcribed as Spec/Rfc4493.lean on bit strings"],
     },
 }
 
 MANIFEST_TEXT = {
+    "C01": {
+        "level": "Lean theorems on the uplink handler model, for every registry, frame and cipher: the devices it goes on to process are exactly those for which the frame is authentic (registered, owns the address, non-zero NwkSKey verifies the MIC over the received bytes); non-uplink types and frames authentic for nobody end in the first step with the system untouched; a frame the decoder rejects is a no-op. Tied by regenerated handler skeletons and by sequential histories on the real pipeline (every corruption class incl. bit flips, truncation/extension, type rewrite, zero/foreign key) with the whole observable state compared with the model and an independent no-effect oracle.",
+        "note": "confinement of the later steps' effects to the authentic devices is decided by correspondence (state comparison), not yet a theorem",
+        "technique": "Lean 4 proof (decision logic stated outright) + regenerated handler skeleton tie + state-by-state correspondence on the real pipeline",
+    },
+    "C02": {
+        "level": "Lean theorems for every block function: the library's payload cipher = LoRaWAN counter-mode spec (C02_decrypt_is_spec), its MIC = spec MIC built on RFC 4493 (via C14), cipher involution. Acceptance and exact recovery of frames built by the Lean LoRaWAN device: engine uplink (every length 0..242, every port, both types, arbitrary FOpts, top-bit addresses) and engine pipeseq (inbox payload, gateway and radio attribution); library-encoded frames = spec frames byte for byte: engine phyenc.",
+        "note": "the end-to-end accept-and-recover statement and encode=spec are decided by correspondence against the Lean spec device, not yet theorems",
+        "technique": "Lean 4 proof (model = spec for cipher and MIC) + differential correspondence against an executable Lean LoRaWAN device",
+    },
+    "C03": {
+        "level": "Lean theorems on the accept step for every state: a strict device's frame with a counter below the snapshot's expected value is dropped without effect; otherwise the stored counter becomes counter+1 in the very step that lets the handler continue, and a failed write stops it. Sequential histories (duplicates, gaps, regressions, 0/65534/65535, restarts) are decided by state comparison with the model on the real pipeline. The all-interleavings clause is NOT claimed proved: see known findings.",
+        "note": "partial: interleavings of concurrent copies are a recorded finding (read-check-write on snapshots), not decided by a theorem",
+        "technique": "Lean 4 proof (accept rule stated outright) + regenerated handler skeleton tie + sequential trace correspondence",
+    },
+    "C04": {
+        "level": "Lean theorems for every block function: a join-request passes the first handler step only if 23 octets, registered device, MIC under its AppKey over the first 19 octets (otherwise no effect); stored session keys = spec derivation on the octets on the air; the emitted join-accept is decrypted/verified/read by the spec device exactly as meant (given D inverts E); the library's join-request encoder = spec. End to end on the real pipeline: every honoured join's stored keys/address/counters equal what the Lean device derives from the emitted join-accept; forged/altered/wrong-length/swapped-EUI requests have no effect.",
+        "note": "AppNonce randomness read back from the emitted join-accept; DecodeJoinAccept compared with the spec device for 17-byte join-accepts (no CFList)",
+        "technique": "Lean 4 proof (authentication decision, key derivation = spec, join-accept decodes) + correspondence against the Lean spec device",
+    },
+    "C05": {
+        "level": "Lean theorems: a nonce in the device's history stops the handler with no effect (check on); the nonce insert succeeds only for a fresh nonce and stores it, after which every insert of it fails — whichever handler, whenever — and a handler whose insert fails stops before any key change. Hence at most one of any number of concurrent copies gets past the insert. Sequential histories with reused/fresh nonces, restarts and both switch values: state comparison on the real pipeline plus oracle (stored keys = keys the spec device derives from the last join-accept).",
+        "note": "atomicity of the INSERT with its primary key is SQLite's; concurrent copies are exercised by the controlled engine once built",
+        "technique": "Lean 4 proof (insert-once lemma + handler decision logic) + sequential trace correspondence",
+    },
+    "C06": {
+        "level": "Lean theorems for every state: the message picked for an accepted uplink is an unsent message of that device and none of its unsent messages is older; what is put into and taken out of the output buffer is that message's port and bytes with the confirmed type iff requested; buffers of different devices are independent; the encoding is the spec's (C02). Histories of submissions and uplinks of several devices: every emitted frame compared byte for byte with the model (which encodes with the Lean AES) on the real pipeline.",
+        "note": "at-most-one-per-uplink and only-after-accepted-uplink are decided by the history correspondence",
+        "technique": "Lean 4 proof (sorted-insertion minimum, buffer round trip) + trace correspondence",
+    },
+    "C07": {
+        "level": "Lean theorems on the encoder model: a data downlink is encoded with the snapshot's FCntDn, the stored counter becomes +1 before the hand-over step, a failed write ends the encoder without a frame. Sequential histories: state comparison + oracle (no (device, NwkSKey, FCnt) twice among emitted frames decoded by the Lean device). Interleaving with the next uplink handler: recorded finding.",
+        "note": "partial: the race between an uplink handler and the previous encoder is a recorded finding",
+        "technique": "Lean 4 proof (encoder steps stated outright) + trace correspondence + uniqueness oracle",
+    },
+    "C08": {
+        "level": "Lean theorems on the outbox operations for every database state: invariant acknowledged => sent kept by every operation; only an acknowledging uplink acknowledges and only sent rows with its counter; an uplink without ACK re-queues exactly the confirmed, sent, unacknowledged rows; only unsent rows are transmitted (unconfirmed ones therefore at most once). Histories decided by state comparison of the outbox rows (sent?/acked?/fcnt) after every event on the real pipeline.",
+        "note": "SQL statements transcribed row-wise, tied by the differential runs against real SQLite",
+        "technique": "Lean 4 proof (life-cycle invariant by cases over operations) + trace correspondence",
+    },
+    "C09": {
+        "level": "Lean theorems on the output buffer for every state: a pending acknowledgement always yields a frame with the ACK flag (even with nothing else to send) and taking it clears the flag; an entry with nothing pending yields nothing and is removed. Histories (confirmed/unconfirmed, valid/invalid, duplicates, with/without queued data): emitted frames compared with the model after every event on the real pipeline. The concurrent-copies clause depends on C03's recorded finding.",
+        "note": "partial: copies delivered concurrently share C03's finding",
+        "technique": "Lean 4 proof (buffer decision logic) + trace correspondence",
+    },
+    "C10": {
+        "level": "Lean theorems: inbox rows appear only in the step after the counter write; keys change only after the handler's own nonce insert; the downlink counter is stored before the hand-over; each of the three writes, when it fails, stops its handler; a crash keeps the database and drops everything volatile. Ordering and error dispositions of the real handlers are regenerated facts tied to the model; restarts at quiescent points are exercised by pipeseq.",
+        "note": "crash/fault injection at every gate of the real handlers is the controlled engine (in progress); real process death and fsync are simulated/trusted",
+        "technique": "Lean 4 proof (durable-before-visible step ordering) + regenerated call-order/error-disposition facts + trace correspondence",
+    },
     "C11": {
         "level": "Lean theorem C11_phy_total: for every byte string of every length UnmarshalBinary's model returns a value or an error, never a panic (induction over the MAC-command loop with a cursor invariant); tied to pkg/protocol by regenerated facts and by differential decoding of >10k (quick) / >500k (thorough) byte strings incl. all 256x256 MHDR/FCtrl pairs, with 0..64 bytes spare capacity, outcome (ok/err kind/panic) compared.",
         "note": "gateway datagram path and the stages behind the decoder are checked by their own engines as they are built; wedging via back-pressure/timers is runtime behaviour no model exhibits (partial)",
